@@ -136,7 +136,10 @@ class C19(Base):
                 steps.append("iter:%s:%s" % (hl(ls), hl(idlist())))
                 niter += 1
             else:
-                steps.append("next:%d" % rng.randrange(niter))
+                if rng.random() < 0.2:
+                    steps.append("nth:%d:%d" % (rng.randrange(niter), rng.choice([0, 1, 1, 2])))
+                else:
+                    steps.append("next:%d" % rng.randrange(niter))
         for h in range(niter):
             for _ in range(rng.randint(0, 3)):
                 steps.append("next:%d" % h)
@@ -285,6 +288,26 @@ class C19(Base):
                     it[2] += 1
                     st["lazy"] += 1
                     exp.append(assemble(loc, [loc], it[1]))
+            elif p[0] == "nth":
+                # Iterator::nth(k) on a (possibly partly consumed) bundle iterator: k locales are assembled and thrown
+                # away (their files ARE read), the next one is returned; None as soon as the locales run out
+                h, k = int(p[1]), int(p[2])
+                if h >= len(iters):
+                    exp.append("no-such-iter|opens=")
+                    continue
+                it = iters[h]
+                opened_all, last = [], "end"
+                for step in range(k + 1):
+                    if it[2] >= len(it[0]):
+                        last = "end"
+                        break
+                    loc = it[0][it[2]]
+                    it[2] += 1
+                    st["lazy"] += 1
+                    r = assemble(loc, [loc], it[1])
+                    last, _, op = r.partition("|opens=")
+                    opened_all += [x for x in op.split(",") if x]
+                exp.append(last + "|opens=" + ",".join(opened_all))
             else:
                 exp.append("bad-op")
         return exp, st
@@ -324,7 +347,7 @@ class C19(Base):
         for s, o in zip(steps, impl_obs.split(";")):
             k = s.split(":")[0]
             bump(dist, "step:" + k)
-            if k in ("bundle", "next"):
+            if k in ("bundle", "next", "nth"):
                 res, _, op = o.partition("|opens=")
                 kind = res.split(":")[0]
                 bump(dist, "%s:%s" % (k, kind))
